@@ -41,12 +41,13 @@ def failure(o, n):
 class World:
     def __init__(self, case):
         self.case = case
-        self.counter = 0
-        self.log = []            # (cls index, outcome) per creator invocation
+        self.cur = 0             # the daemon that is being driven right now
+        self.counter = {}        # daemon -> number of creator invocations
+        self.log = {}            # daemon -> [(cls index, outcome)] per creator invocation
         self.ctl = None
         self.classes = []
-        self.refs = {}           # serial -> weakref
-        self.bits = {}           # serial -> (cls, truthy, eqnone)
+        self.refs = {}           # (daemon, serial) -> weakref
+        self.bits = {}           # (daemon, serial) -> (cls, truthy, eqnone)
         self.bypass = []         # constructor of a class WITH creator invoked directly
         self.subclasses = {}     # cls index -> a proper subclass (creators may return instances of it)
 
@@ -68,10 +69,11 @@ class World:
         """one creator invocation (constructor call for classes without creator)"""
         if self.ctl is not None:
             self.ctl.yield_point("access", "create")
-        n = self.counter
-        self.counter += 1
+        d = self.cur
+        n = self.counter.get(d, 0)
+        self.counter[d] = n + 1
         o = self.outcome(n, idx)
-        self.log.append((idx, o))
+        self.log.setdefault(d, []).append((idx, o))
         return n, o
 
     def build(self, idx, n, o):
@@ -81,9 +83,9 @@ class World:
                 self.subclasses[idx] = type("Sub%d" % idx, (cls,), {})
             cls = self.subclasses[idx]
         obj = object.__new__(cls)
-        obj._serial, obj._truthy, obj._eqnone = n, o[1], o[2]
-        self.refs[n] = weakref.ref(obj)
-        self.bits[n] = (idx, o[1], o[2])
+        obj._daemon, obj._serial, obj._truthy, obj._eqnone = self.cur, n, o[1], o[2]
+        self.refs[(self.cur, n)] = weakref.ref(obj)
+        self.bits[(self.cur, n)] = (idx, o[1], o[2])
         return obj
 
 
@@ -101,7 +103,7 @@ def make_class(world, idx, spec):
         return world.build(idx, n, o)
 
     def ident(self):
-        return self._serial
+        return [self._daemon, self._serial]
     ns["__new__"] = __new__
     ns["ident"] = ident
     if spec["flavour"] == "len":
@@ -261,9 +263,242 @@ def end_connection(net, lc, proxy, how):
     proxy._pyroRelease()          # orderly: the client closes its socket, the server sees end-of-stream
 
 
+FOREIGN = 900000      # added to the serial of an instance that belongs to another daemon
+
+
+class DaemonCtx:
+    """one daemon of the case with its loopback network, proxies and observations"""
+    def __init__(self, d, world, orig_create_socket):
+        self.d, self.world = d, world
+        self.daemon = loopback.make_daemon()
+        for i, cls in enumerate(world.classes):
+            self.daemon.register(cls, "id%d" % i)          # initially class i is known by id i
+        self.net = loopback.Loopback(self.daemon)
+        self.net._orig = orig_create_socket
+        self.proxies, self.sconns, self.lconns = {}, {}, {}
+        self.obs = {"obs": [], "dropped": [], "errors": [], "results": [], "done": []}
+        self.closed = False
+
+    def served(self, r, c):
+        """r = ["served", [daemon, serial]] -> ["served", serial, cls, truthy, eqnone]"""
+        dd, n = (r[1] + [None, None])[:2] if isinstance(r[1], list) else (None, None)
+        if not isinstance(n, int):
+            return ["error", "BadResult:%r" % (r[1],)]
+        b = self.world.bits.get((dd, n), (c, True, False))
+        if dd != self.d:
+            self.obs.setdefault("foreign", []).append([dd, n])
+            n += FOREIGN
+        return ["served", n] + list(b)
+
+    def serial(self, a):
+        n = serial_of(a)
+        return n if getattr(a, "_daemon", self.d) == self.d else n + FOREIGN
+
+    def snapshot(self, nconn):
+        singles = []
+        for cls in self.world.classes:
+            a = dict.get(self.daemon._pyroInstances, cls)
+            singles.append(None if a is None else self.serial(a))
+        sess = []
+        for k in range(nconn):
+            row = []
+            for cls in self.world.classes:
+                a = self.sconns[k].pyroInstances.get(cls) if k in self.sconns else None
+                row.append(None if a is None else self.serial(a))
+            sess.append(row)
+        return {"log": [[i, list(o)] for i, o in self.world.log.get(self.d, [])], "singles": singles, "sessions": sess}
+
+    def finish(self):
+        if self.closed:
+            return
+        self.closed = True
+        for p in self.proxies.values():
+            try:
+                p._pyroRelease()
+            except Exception:      # noqa
+                pass
+        for c in list(self.net.conns.values()):
+            if not c.server_closed:
+                self.net._server_close(c, hook=c.handshaken)
+        self.daemon.close()
+
+
+# ---------------------------------------------------------------- real-socket leg (thread-pool and multiplex servers)
+_REAL = {"servers": {}, "cur": None, "n": 0}
+
+
+def real_server(kind, hook):
+    """a real daemon running its real request loop; its clientDisconnect hook returns or raises"""
+    from tools.lib import rawdrv
+    key = (kind, hook)
+    if key not in _REAL["servers"]:
+        srv = rawdrv.Server(kind, pool_size=8, pool_min=2).start()
+        daemon = srv.daemon
+        orig_get = daemon._getInstance
+
+        def get_instance(clazz, conn):
+            cur = _REAL["cur"]
+            if cur is not None:
+                try:
+                    cur["conns"][conn.sock.getpeername()[1]] = conn
+                except Exception:      # noqa
+                    pass
+            return orig_get(clazz, conn)
+
+        def client_disconnect(conn):
+            cur = _REAL["cur"]
+            if cur is not None:
+                cur["hooked"].append(conn)
+            if hook == "raise":
+                raise RuntimeError("clientDisconnect hook failed (e.g. audit backend unavailable)")
+        daemon._getInstance = get_instance
+        daemon.clientDisconnect = client_disconnect
+        _REAL["servers"][key] = srv
+    return _REAL["servers"][key]
+
+
+def stop_real_servers():
+    for srv in list(_REAL["servers"].values()):
+        try:
+            srv.stop()
+        except Exception:      # noqa
+            pass
+    _REAL["servers"].clear()
+    _REAL["cur"] = None
+
+
+def wait_for(pred, timeout):
+    import time
+    t0 = time.time()
+    while time.time() - t0 < timeout:
+        if pred():
+            return True
+        time.sleep(0.003)
+    return pred()
+
+
+def run_real(case, tree="/repo"):
+    """the history played by raw clients against a real running daemon (case["leg"] = {"server": "thread"|"multiplex",
+    "hook": "ok"|"raise"}); same observation format as the loopback leg (one daemon, no concurrent phase)"""
+    from tools.lib import rawdrv
+    from Pyro5 import protocol
+    leg = case["leg"]
+    srv = real_server(leg["server"], leg["hook"])
+    daemon = srv.daemon
+    world = World(case)
+    world.classes = [None] * len(case["classes"])
+    for i, spec in enumerate(case["classes"]):
+        world.classes[i] = make_class(world, i, spec)
+    _REAL["n"] += 1
+    pre = "r%d_" % _REAL["n"]
+    cur = {"conns": {}, "hooked": []}
+    _REAL["cur"] = cur
+    obs = {"obs": [], "dropped": [], "errors": [], "results": [], "done": [], "foreign": []}
+    clients, seqs = {}, {}
+    nconn = 1 + max([ev[1] for ev in case["hist"] if ev[0] in ("call", "close")] + [-1])
+
+    def reply_to_result(m, c):
+        if not isinstance(m, dict) or "value" not in m:
+            return ["error", "NoReply:%r" % (m if not isinstance(m, dict) else m.get("value_error"),)]
+        v = m["value"]
+        if m["flags"] & protocol.FLAGS_EXCEPTION:
+            def rs():
+                raise v
+            return call_result(rs)
+        if isinstance(v, (list, tuple)) and len(v) == 2 and isinstance(v[1], int):
+            return ["served", v[1]] + list(world.bits.get((0, v[1]), (c, True, False)))
+        return ["error", "BadResult:%r" % (v,)]
+    try:
+        for i, cls in enumerate(world.classes):
+            daemon.register(cls, pre + "id%d" % i)
+        for ev in case["hist"]:
+            if ev[0] == "call":
+                k, c = ev[1], ev[2]
+                if k not in clients:
+                    cl, m = rawdrv.handshake(srv.port, "Pyro.Daemon")
+                    if not isinstance(m, dict) or m.get("type") != protocol.MSG_CONNECTOK:
+                        obs["errors"].append("handshake failed: %r" % (m,))
+                    clients[k], seqs[k] = cl, 0
+                seqs[k] += 1
+                clients[k].send(rawdrv.invoke_msg(pre + "id%d" % (ev[3] if len(ev) > 3 else c), "ident", (), {}, seq=seqs[k]))
+                obs["obs"].append(reply_to_result(clients[k].recv_msg(timeout=5.0), c))
+            elif ev[0] == "close":
+                k = ev[1]
+                if k in clients:
+                    cl = clients.pop(k)
+                    how = ending_of(ev)
+                    conn = cur["conns"].get(cl.port)
+                    held = [(0, serial_of(v)) for v in conn.pyroInstances.values()] if conn is not None else []
+                    if how == "reset":
+                        cl.reset()
+                    elif how == "error":
+                        cl.send(b"\x00garbage-not-pyro" * 4)
+                        cl.expect_eof(2.0)
+                        cl.close()
+                    else:
+                        cl.close()
+
+                    if not wait_for(lambda: (conn in cur["hooked"]) if conn is not None else True, 3.0):
+                        obs["errors"].append("the server did not notice the end of connection %d (%s)" % (k, how))
+
+                    def dropped():
+                        return conn is None or (len(conn.pyroInstances) == 0 and
+                                                not [s for s in held if s in world.refs and world.refs[s]() is not None])
+                    if not wait_for(dropped, 0.6):
+                        srv.wait_quiet(timeout=1.0)   # let the pool / selector accounting settle before judging
+                        gc.collect()
+                        wait_for(dropped, 0.5)
+                    left = len(conn.pyroInstances) if conn is not None else 0
+                    alive = [s[1] for s in held if s in world.refs and world.refs[s]() is not None]
+                    obs["dropped"].append({"conn": k, "how": how, "left": left, "alive": alive,
+                                           "server": leg["server"], "hook": leg["hook"]})
+                    cur["conns"].pop(cl.port, None)
+                obs["obs"].append(["closed"])
+            else:
+                obs["errors"].append("event %r is not supported by the real-socket leg" % (ev[0],))
+        singles = []
+        for cls in world.classes:
+            a = dict.get(daemon._pyroInstances, cls)
+            singles.append(None if a is None else serial_of(a))
+        sess = []
+        for k in range(nconn):
+            conn = cur["conns"].get(clients[k].port) if k in clients else None
+            row = []
+            for cls in world.classes:
+                a = conn.pyroInstances.get(cls) if conn is not None else None
+                row.append(None if a is None else serial_of(a))
+            sess.append(row)
+        snap = {"log": [[i, list(o)] for i, o in world.log.get(0, [])], "singles": singles, "sessions": sess}
+        obs.update(snap)
+        obs["final"] = dict(snap, results=[], done=[])
+        obs["bypass"] = list(world.bypass)
+        if not srv.loop_alive():
+            obs["errors"].append("the daemon's request loop died: %r" % (srv.loop_exception,))
+        return {"d": [obs], "cd": 0}
+    finally:
+        for cl in clients.values():
+            cl.close()
+        for i in range(len(world.classes)):
+            try:
+                daemon.unregister(pre + "id%d" % i)
+            except Exception:      # noqa
+                pass
+        for cls in world.classes:
+            dict.pop(daemon._pyroInstances, cls, None)
+        _REAL["cur"] = None
+
+
+def daemons_of(case):
+    dm = case.get("dmn") or [0] * len(case["hist"])
+    return dm, 1 + max(list(dm) + [case.get("conc_d", 0)])
+
+
 def run_impl(case, tree="/repo"):
-    """plays the case on the real code; returns the observation dict"""
-    import Pyro5.client, Pyro5.errors
+    """plays the case on the real code; returns {"d": [observation per daemon], "cd": conc daemon}"""
+    if case.get("leg"):
+        return run_real(case, tree)
+    import Pyro5.client, Pyro5.errors, Pyro5.core
+    import Pyro5.socketutil as su
     from Pyro5 import config
     config.MAX_RETRIES = 0
     config.SERVERTYPE = "multiplex"      # the request loop is never started; its close() does not wait for worker threads
@@ -272,119 +507,145 @@ def run_impl(case, tree="/repo"):
     world.classes = [None] * len(case["classes"])
     for i, spec in enumerate(case["classes"]):
         world.classes[i] = make_class(world, i, spec)
-    ncls = len(world.classes)
-    daemon = loopback.make_daemon()
-    obs = {"obs": [], "dropped": [], "errors": []}
+    dmn, nd = daemons_of(case)
+    cd = case.get("conc_d", 0)
+    sequential = bool(case.get("sequential_daemons"))
+    nconn = [1 + max([ev[1] for ev, d in zip(case["hist"], dmn) if d == dd and ev[0] in ("call", "close")] + [-1]) for dd in range(nd)]
+    orig = su.create_socket
+    ctxs = {}
+    snaps = {}
+
+    def ctx_of(d):
+        if d not in ctxs:
+            for dd in range(d):   # daemons come into being in index order
+                ctx_of(dd)
+            if sequential:        # one daemon after the other: the earlier ones are shut down first
+                for dd, cx in ctxs.items():
+                    if not cx.closed:
+                        snaps[dd] = cx.snapshot(nconn[dd])
+                        cx.finish()
+            ctxs[d] = DaemonCtx(d, world, orig)
+        return ctxs[d]
     try:
-        for i, cls in enumerate(world.classes):
-            daemon.register(cls, "id%d" % i)          # initially class i is known by id i
-        import Pyro5.core
-        uri0 = daemon.uriFor(Pyro5.core.DAEMON_NAME)   # the proxies connect to the daemon object; calls name their target id
-        proxies, sconns, lconns = {}, {}, {}
-        with loopback.Loopback(daemon) as net:
-            for ev in case["hist"]:
-                if ev[0] == "reg":
-                    _, c, i, force = ev
-                    obs["obs"].append(admin_result(lambda: daemon.register(world.classes[c], "id%d" % i, force=bool(force))))
-                elif ev[0] == "unreg":
-                    obs["obs"].append(admin_result(lambda: daemon.unregister("id%d" % ev[1])))
-                elif ev[0] == "call":
-                    k, c = ev[1], ev[2]
-                    oid = "id%d" % (ev[3] if len(ev) > 3 else c)
-                    if k not in proxies:
-                        cid = net._next
-                        p = Pyro5.client.Proxy(uri0)
+        if not sequential:
+            for d in range(nd):
+                ctx_of(d)
+        for ev, d in zip(case["hist"], dmn):
+            cx = ctx_of(d)
+            world.cur = d
+            daemon, obs = cx.daemon, cx.obs
+            if cx.closed:
+                obs["errors"].append("event for a daemon that was already shut down")
+                continue
+            if ev[0] == "reg":
+                _, c, i, force = ev
+                obs["obs"].append(admin_result(lambda: daemon.register(world.classes[c], "id%d" % i, force=bool(force))))
+            elif ev[0] == "unreg":
+                obs["obs"].append(admin_result(lambda: daemon.unregister("id%d" % ev[1])))
+            elif ev[0] == "call":
+                k, c = ev[1], ev[2]
+                oid = "id%d" % (ev[3] if len(ev) > 3 else c)
+                if k not in cx.proxies:
+                    cid = cx.net._next
+                    p = Pyro5.client.Proxy(daemon.uriFor(Pyro5.core.DAEMON_NAME))   # calls name their target id themselves
+                    su.create_socket = cx.net._create_socket
+                    try:
                         p._pyroBind()
-                        proxies[k] = p
-                        sconns[k] = net.conns[cid].sconn
-                        lconns[k] = net.conns[cid]
-                    p = proxies[k]
-                    r = call_result(lambda: p._pyroInvoke("ident", [], {}, objectId=oid))
-                    if r[0] == "served":
-                        b = world.bits.get(r[1])
-                        r = ["served", r[1]] + (list(b) if b else [c, True, False])
-                    obs["obs"].append(r)
-                else:
-                    k = ev[1]
-                    if k in proxies:
-                        p, sc, lc = proxies.pop(k), sconns.pop(k), lconns.pop(k)
-                        how = ending_of(ev)
-                        held = [serial_of(v) for v in sc.pyroInstances.values()]
-                        end_connection(net, lc, p, how)
-                        if not lc.server_closed:
-                            obs["errors"].append("connection %d did not end on the server side (%s)" % (k, how))
-                        left = len(sc.pyroInstances)
+                    finally:
+                        su.create_socket = orig
+                    cx.proxies[k] = p
+                    cx.sconns[k] = cx.net.conns[cid].sconn
+                    cx.lconns[k] = cx.net.conns[cid]
+                p = cx.proxies[k]
+                r = call_result(lambda: p._pyroInvoke("ident", [], {}, objectId=oid))
+                if r[0] == "served":
+                    r = cx.served(r, c)
+                obs["obs"].append(r)
+            else:
+                k = ev[1]
+                if k in cx.proxies:
+                    p, sc, lc = cx.proxies.pop(k), cx.sconns.pop(k), cx.lconns.pop(k)
+                    how = ending_of(ev)
+                    held = [(getattr(v, "_daemon", d), serial_of(v)) for v in sc.pyroInstances.values()]
+                    end_connection(cx.net, lc, p, how)
+                    if not lc.server_closed:
+                        obs["errors"].append("connection %d did not end on the server side (%s)" % (k, how))
+                    left = len(sc.pyroInstances)
+                    alive = [s for s in held if s in world.refs and world.refs[s]() is not None]
+                    if alive:
+                        gc.collect()
                         alive = [s for s in held if s in world.refs and world.refs[s]() is not None]
-                        if alive:
-                            gc.collect()
-                            alive = [s for s in held if s in world.refs and world.refs[s]() is not None]
-                        obs["dropped"].append({"conn": k, "how": how, "left": left, "alive": alive})
-                    obs["obs"].append(["closed"])
-            # ---- concurrent phase on the same daemon
-            results = [[] for _ in case["calls"]]
-            ctl = None
-            if case["calls"]:
-                info = gen_info(tree)
-                ctl = coop.Controller()
-                tbl = InstrDict(daemon._pyroInstances)
-                tbl.ctl = ctl
-                daemon._pyroInstances = tbl
-                la = info.get("lock_attr")
-                if la and hasattr(daemon, la):
-                    setattr(daemon, la, coop.CoopRLock(ctl) if info.get("lock_kind") == "RLock" else coop.CoopLock(ctl))
-                world.ctl = ctl
+                    obs["dropped"].append({"conn": k, "how": how, "left": left, "alive": [s[1] for s in alive]})
+                obs["obs"].append(["closed"])
+        # ---- concurrent phase on daemon cd
+        results = [[] for _ in case["calls"]]
+        ctl = None
+        cx = ctx_of(cd)
+        world.cur = cd
+        daemon = cx.daemon
+        if case["calls"] and not cx.closed:
+            info = gen_info(tree)
+            ctl = coop.Controller()
+            tbl = InstrDict(daemon._pyroInstances)
+            tbl.ctl = ctl
+            daemon._pyroInstances = tbl
+            la = info.get("lock_attr")
+            if la and hasattr(daemon, la):
+                setattr(daemon, la, coop.CoopRLock(ctl) if info.get("lock_kind") == "RLock" else coop.CoopLock(ctl))
+            world.ctl = ctl
 
-                def mk(i, cl):
-                    conn = types.SimpleNamespace(pyroInstances={})
+            def mk(i, cl):
+                conn = types.SimpleNamespace(pyroInstances={})
 
-                    def body():
-                        for c in cl:
-                            r = call_result(lambda: serial_of(daemon._getInstance(world.classes[c], conn)))
-                            if r[0] == "served":
-                                r = ["served", r[1]] + list(world.bits.get(r[1], (c, True, False)))
-                            results[i].append([c, r])
-                    return body
-                for i, cl in enumerate(case["calls"]):
-                    ctl.spawn(mk(i, cl))
-                ctl.start()
-                ctl.run(case["sched"])
+                def body():
+                    for c in cl:
+                        r = call_result(lambda: (lambda a: [getattr(a, "_daemon", cd), serial_of(a)])(daemon._getInstance(world.classes[c], conn)))
+                        if r[0] == "served":
+                            r = cx.served(r, c)
+                        results[i].append([c, r])
+                return body
+            for i, cl in enumerate(case["calls"]):
+                ctl.spawn(mk(i, cl))
+            ctl.start()
+            ctl.run(case["sched"])
 
-            def snapshot():
-                singles = []
-                for cls in world.classes:
-                    a = dict.get(daemon._pyroInstances, cls)
-                    singles.append(None if a is None else serial_of(a))
-                return {"results": [list(map(list, r)) for r in results],
-                        "done": [w.done for w in ctl.workers] if ctl else [],
-                        "log": [[i, list(o)] for i, o in world.log], "singles": singles}
-            obs.update(snapshot())
-            nconn = 1 + max([ev[1] for ev in case["hist"] if ev[0] in ("call", "close")] + [-1])
-            sess = []
-            for k in range(nconn):
-                row = []
-                for cls in world.classes:
-                    a = sconns[k].pyroInstances.get(cls) if k in sconns else None
-                    row.append(None if a is None else serial_of(a))
-                sess.append(row)
-            obs["sessions"] = sess
-            if ctl is not None:
-                try:
-                    ctl.abandon()
-                except coop.HarnessStuck as x:
-                    obs["errors"].append("stuck: %s" % x)
-                world.ctl = None
-                obs["errors"] += [repr(w.error) for w in ctl.workers if w.error is not None]
-            obs["final"] = snapshot()
-            obs["bypass"] = list(world.bypass)
-            for p in proxies.values():
-                p._pyroRelease()
+        def conc_snapshot():
+            return {"results": [list(map(list, r)) for r in results], "done": [w.done for w in ctl.workers] if ctl else []}
+        out = []
+        for d in range(nd):
+            c2 = ctx_of(d)
+            o = c2.obs
+            o.update(snaps[d] if d in snaps else c2.snapshot(nconn[d]))
+            if d == cd:
+                o.update(conc_snapshot())
+        if ctl is not None:
+            try:
+                ctl.abandon()
+            except coop.HarnessStuck as x:
+                cx.obs["errors"].append("stuck: %s" % x)
+            world.ctl = None
+            cx.obs["errors"] += [repr(w.error) for w in ctl.workers if w.error is not None]
+        for d in range(nd):
+            c2 = ctxs[d]
+            o = c2.obs
+            fin = dict(snaps[d]) if d in snaps else c2.snapshot(nconn[d])
+            fin.update(conc_snapshot() if d == cd else {"results": [], "done": []})
+            o["final"] = fin
+            o["bypass"] = list(world.bypass) if d == 0 else []
+            o.setdefault("foreign", [])
+            out.append(o)
+        return {"d": out, "cd": cd}
     finally:
-        daemon.close()
-    return obs
+        su.create_socket = orig
+        for cx in ctxs.values():
+            try:
+                cx.finish()
+            except Exception:      # noqa
+                pass
 
 
 # ---------------------------------------------------------------- the property, stated directly
-def oracle(case, obs):
+def oracle_one(case, obs):
     bad = []
     specs = case["classes"]
 
@@ -459,8 +720,9 @@ def oracle(case, obs):
                     "session-mode class %d: connection %s saw instances %d and %d" % (c, key, prev, nxt))
     for d in obs["dropped"]:
         if d["left"] or d["alive"]:
-            add("session-not-dropped", "after connection %d ended (%s) its session table still holds %d entries / instances %s are alive"
-                % (d["conn"], d.get("how", "orderly"), d["left"], d["alive"]))
+            add("session-not-dropped", "after connection %d ended (%s%s) its session table still holds %d entries / instances %s are alive"
+                % (d["conn"], d.get("how", "orderly"),
+                   ", %s server, clientDisconnect hook: %s" % (d["server"], d["hook"]) if "server" in d else "", d["left"], d["alive"]))
     for c, ids in per_percall.items():
         if len(set(ids)) != len(ids):
             add("percall-reused", "percall-mode class %d: %d calls were served by %d instances" % (c, len(ids), len(set(ids))))
@@ -488,6 +750,30 @@ def oracle(case, obs):
                 add("single-store", "single-mode class %d: stored instance %s is not the one that served (%s)" % (c, s, ids[0]))
         elif s is not None:
             add("single-store", "class %d is not single-mode but has an entry in Daemon._pyroInstances" % c)
+    return bad
+
+
+def proj_case(case, d):
+    """the part of the case that concerns daemon d"""
+    dmn, _ = daemons_of(case)
+    c = dict(case)
+    c["hist"] = [ev for ev, dd in zip(case["hist"], dmn) if dd == d]
+    c["calls"] = case["calls"] if d == case.get("conc_d", 0) else []
+    return c
+
+
+def oracle(case, mobs):
+    """the property per daemon (instances are per daemon: nothing may be shared between two daemons of one process)"""
+    bad = []
+    many = len(mobs["d"]) > 1
+    for d, obs in enumerate(mobs["d"]):
+        found = list(oracle_one(proj_case(case, d), obs))
+        if obs.get("foreign"):
+            found.insert(0, ("instance-shared-between-daemons",
+                             "a call on daemon %d was served by instance(s) %s made for another daemon" % (d, obs["foreign"][:3])))
+        for sig, what in found:
+            if sig not in [b[0] for b in bad]:
+                bad.append((sig, ("daemon %d: " % d if many else "") + what))
     return bad
 
 
@@ -524,22 +810,27 @@ def c_optnat(x):
     return "None" if x is None else "Some %s" % cnat(x)
 
 
-def c_case(case, obs):
+def c_case(case, mobs):
     specs = case["classes"]
     modes = {"single": "MSingle", "session": "MSession", "percall": "MPercall"}
+    dmn, _ = daemons_of(case)
+    per = mobs["d"]
+    cd = mobs.get("cd", 0)
     return ("{| c_modes := %s; c_falsy := %s; c_eq := %s; c_creator := %s; c_script := %s; c_dflt := %s; "
-            "c_hist := %s; c_calls := %s; c_sched := %s; c_obs := %s; c_results := %s; c_done := %s; "
+            "c_hist := %s; c_cd := %s; c_ncls := %s; c_calls := %s; c_sched := %s; c_obs := %s; c_results := %s; c_done := %s; "
             "c_log := %s; c_singles := %s; c_sessions := %s |}") % (
         clist([modes[mode_of(s)] for s in specs]), clist([cbool(s["flavour"] != "plain") for s in specs]),
         clist([cbool(s["eq"]) for s in specs]), clist([cbool(s["creator"] != "none") for s in specs]),
         clist([c_outcome(o) for o in case["script"]]), c_outcome(case["dflt"]),
-        clist([c_event(e) for e in case["hist"]]), clist([clist([cnat(c) for c in cl]) for cl in case["calls"]]),
-        clist([cnat(t) for t in case["sched"]]), clist([c_obs(o) for o in obs["obs"]]),
-        clist([clist(["(%s, %s)" % (cnat(c), c_obs(r)) for c, r in rs]) for rs in obs["results"]]),
-        clist([cbool(d) for d in obs["done"]]),
-        clist(["(%s, %s)" % (cnat(i), c_outcome(o)) for i, o in obs["log"]]),
-        clist([c_optnat(x) for x in obs["singles"]]),
-        clist([clist([c_optnat(x) for x in row]) for row in obs["sessions"]]))
+        clist(["(%s, %s)" % (cnat(d), c_event(e)) for e, d in zip(case["hist"], dmn)]), cnat(cd), cnat(len(specs)),
+        clist([clist([cnat(c) for c in cl]) for cl in case["calls"]]),
+        clist([cnat(t) for t in case["sched"]]),
+        clist([clist([c_obs(o) for o in obs["obs"]]) for obs in per]),
+        clist([clist(["(%s, %s)" % (cnat(c), c_obs(r)) for c, r in rs]) for rs in per[cd]["results"]]),
+        clist([cbool(d) for d in per[cd]["done"]]),
+        clist([clist(["(%s, %s)" % (cnat(i), c_outcome(o)) for i, o in obs["log"]]) for obs in per]),
+        clist([clist([c_optnat(x) for x in obs["singles"]]) for obs in per]),
+        clist([clist([clist([c_optnat(x) for x in row]) for row in obs["sessions"]]) for obs in per]))
 
 
 # ---------------------------------------------------------------- generators
@@ -585,12 +876,18 @@ def gen_case(rng, conc=None):
     dflt = rng.choice([["made", True, False], ["made", False, False], ["made", False, True]])
     nconn = rng.randint(1, 3)
     hot = rng.randrange(ncls)
-    hist = []
-    reg = {i: i for i in range(ncls)}        # object id -> class, as the daemon should have it
+    hist, dmn = [], []
+    nd = 2 if rng.random() < 0.3 else 1       # several daemons in the process serve the same classes
+    sequential = nd > 1 and rng.random() < 0.4
+    regs = [{i: i for i in range(ncls)} for _ in range(nd)]     # per daemon: object id -> class
     nids = ncls + 2
     admin = rng.random() < 0.5               # half of the histories register / unregister classes under several ids
-    for _ in range(rng.choice([0, 2, 4, 6, 9, 12])):
+    nev = rng.choice([0, 2, 4, 6, 9, 12])
+    for j in range(nev):
+        d = (0 if j < nev // 2 else 1) if sequential else rng.randrange(nd)
+        reg = regs[d]
         r = rng.random()
+        n0 = len(hist)
         if admin and (r < 0.22 or not reg):
             c, i = (hot if rng.random() < 0.6 else rng.randrange(ncls)), rng.randrange(nids)
             if r < 0.11 and reg and rng.random() < 0.7:
@@ -610,6 +907,8 @@ def gen_case(rng, conc=None):
             hotids = [i for i in ids if reg[i] == hot]
             i = rng.choice(hotids) if hotids and rng.random() < 0.5 else rng.choice(ids)
             hist.append(["call", rng.randrange(nconn), reg[i], i])
+        if len(hist) > n0:
+            dmn.append(d)
     calls, sched = [], []
     if conc if conc is not None else rng.random() < 0.6:
         singles = [i for i, c in enumerate(classes) if c["mode"] == "single"]
@@ -619,7 +918,44 @@ def gen_case(rng, conc=None):
         sched = [rng.randrange(nt) for _ in range(rng.randint(0, 14))]
         if rng.random() < 0.7:
             sched += drain(nt)
-    return {"classes": classes, "script": script, "dflt": dflt, "hist": hist, "calls": calls, "sched": sched}
+    case = {"classes": classes, "script": script, "dflt": dflt, "hist": hist, "calls": calls, "sched": sched}
+    if nd > 1:
+        case.update({"dmn": dmn, "conc_d": nd - 1 if sequential else rng.randrange(nd), "sequential_daemons": sequential})
+    return case
+
+
+REAL_ENDINGS = ("orderly", "reset", "error")
+
+
+def gen_real_case(rng, server=None, hook=None):
+    """a history for the real-socket leg: running daemon (thread pool / multiplex), clientDisconnect hook returns or raises"""
+    ncls = rng.randint(1, 2)
+    classes = [gen_class(rng, rng.choice(["session", "session", "single", "percall", "default"])) for _ in range(ncls)]
+    if not any(mode_of(c) == "session" for c in classes):
+        classes[0] = gen_class(rng, "session")
+    script = [gen_outcome(rng) for _ in range(rng.randint(0, 5))]
+    hist = []
+    nconn = rng.randint(1, 2)
+    for _ in range(rng.randint(3, 8)):
+        if rng.random() < 0.3 and any(e[0] == "call" for e in hist):
+            hist.append(["close", rng.randrange(nconn), rng.choice(REAL_ENDINGS)])
+        else:
+            hist.append(["call", rng.randrange(nconn), rng.randrange(ncls)])
+    hist.append(["close", 0, rng.choice(REAL_ENDINGS)])
+    return {"classes": classes, "script": script, "dflt": ["made", rng.random() < 0.6, False, rng.random() < 0.3], "hist": hist,
+            "calls": [], "sched": [], "leg": {"server": server or rng.choice(["thread", "multiplex"]), "hook": hook or rng.choice(["ok", "raise"])}}
+
+
+def real_family():
+    out = []
+    for server in ("thread", "multiplex"):
+        for hook in ("ok", "raise"):
+            for how in REAL_ENDINGS:
+                out.append({"classes": [cls("session", "len", False, "func"), cls("single", "plain", False, "none")], "script": [],
+                            "dflt": ["made", False, False], "leg": {"server": server, "hook": hook}, "calls": [], "sched": [],
+                            "hist": [["call", 0, 0], ["call", 0, 0], ["call", 1, 0], ["call", 0, 1], ["close", 0, how], ["call", 0, 0],
+                                     ["call", 1, 0], ["close", 1, how], ["close", 0, "orderly"]]})
+    return out
 
 
 def cls(mode, flavour="plain", eq=False, creator="none"):
@@ -643,6 +979,16 @@ def family_cases():
                     for bits in ((T, F), (F, F), (T, T), (F, T)):
                         out.append({"classes": [cls(mode, flavour, eq, creator)], "script": [], "dflt": ["made", bits[0], bits[1]],
                                     "hist": hist, "calls": [], "sched": []})
+    # two daemons in one process serving the same classes, side by side and one after the other
+    for mode in ("single", "session", "percall", "default"):
+        for creator in (("none", "func", "cmeth") if mode != "default" else ("none",)):
+            for bits in ((T, F), (F, T)):
+                two = [cls(mode, "len", T, creator), cls("single", "plain", F, "none")]
+                h = [["call", 0, 0], ["call", 0, 0], ["call", 0, 1], ["call", 1, 0], ["call", 0, 0], ["call", 0, 1], ["close", 0, "orderly"], ["call", 0, 0]]
+                out.append({"classes": two, "script": [], "dflt": ["made", bits[0], bits[1]], "hist": h, "dmn": [0, 1, 0, 1, 1, 1, 0, 0],
+                            "calls": [[1], [1]], "sched": [0, 1, 0, 1] + drain(2), "conc_d": 1})
+                out.append({"classes": two, "script": [], "dflt": ["made", bits[0], bits[1]], "hist": h, "dmn": [0, 0, 0, 0, 1, 1, 1, 1],
+                            "calls": [[1], [1, 1]], "sched": [1, 0, 0, 1] + drain(2), "conc_d": 1, "sequential_daemons": True})
     # one class known by several ids, unregistered and registered again; calls addressed to each id
     adm = [["call", 0, 0, 0], ["reg", 0, 5, T], ["call", 1, 0, 5], ["call", 0, 0, 0], ["unreg", 0], ["call", 0, 0, 5], ["call", 1, 0, 5],
            ["unreg", 5], ["reg", 0, 0, F], ["call", 0, 0, 0], ["call", 1, 0, 0], ["reg", 0, 6, T], ["unreg", 0], ["call", 0, 0, 6],
@@ -684,20 +1030,32 @@ def family_cases():
     return out
 
 
-def short(obs):
-    return {k: obs[k] for k in ("obs", "results", "done", "log", "singles", "sessions", "errors", "dropped")}
+def short(mobs):
+    return {"cd": mobs.get("cd", 0),
+            "d": [{k: obs.get(k) for k in ("obs", "results", "done", "log", "singles", "sessions", "errors", "dropped", "foreign")}
+                  for obs in mobs["d"]]}
 
 
 def execute(ctx, cases, model_ok, res):
+    try:
+        return _execute(ctx, cases, model_ok, res)
+    finally:
+        stop_real_servers()
+
+
+def _execute(ctx, cases, model_ok, res):
     lits, kept = [], []
     for case in cases:
         obs = run_impl(case, ctx.tree)
         nontriv = len(case["hist"]) + sum(len(c) for c in case["calls"]) >= 2
         res.seen(case, nontriv)
         res.count("conc" if case["calls"] else "sequential")
+        res.count("daemons_%d%s" % (len(obs["d"]), "_sequential" if case.get("sequential_daemons") else ""))
+        if case.get("leg"):
+            res.count("real:%s/hook-%s" % (case["leg"]["server"], case["leg"]["hook"]))
         if case["calls"]:
             res.count("threads_%d" % len(case["calls"]))
-            res.count("sched_complete" if all(obs["done"]) else "sched_incomplete")
+            res.count("sched_complete" if all(obs["d"][obs.get("cd", 0)]["done"]) else "sched_incomplete")
         for ev in case["hist"]:
             if ev[0] == "close":
                 res.count("end:" + ending_of(ev))
@@ -705,7 +1063,7 @@ def execute(ctx, cases, model_ok, res):
                 res.count("admin:" + ev[0])
         for spec in case["classes"]:
             res.count("class:%s/%s%s/%s" % (mode_of(spec), spec["flavour"], "+eq" if spec["eq"] else "", spec["creator"]))
-        for o in obs["obs"] + [r for rs in obs["final"]["results"] for _, r in rs]:
+        for o in [o for od in obs["d"] for o in od["obs"] + [r for rs in od["final"]["results"] for _, r in rs]]:
             if o[0] == "served":
                 res.count("served:%s%s" % ("truthy" if o[3] else "falsy", "+eqnone" if o[4] else ""))
             else:
@@ -723,7 +1081,9 @@ def execute(ctx, cases, model_ok, res):
 
 def all_cases(ctx):
     rng = ctx.rng
-    cases = vlib.load_corpus(PROP) + family_cases()
+    cases = vlib.load_corpus(PROP) + family_cases() + real_family()
+    for _ in range(min(ctx.n(28, 300), 600)):
+        cases.append(gen_real_case(rng))
     for _ in range(min(ctx.n(900, 6000), 12000)):      # search (scale 10) is capped: ~30 ms per case
         cases.append(gen_case(rng))
     return cases
@@ -758,7 +1118,10 @@ def search(ctx, broken):
 
 
 def replay(ctx, case):
-    obs = run_impl(case, ctx.tree)
+    try:
+        obs = run_impl(case, ctx.tree)
+    finally:
+        stop_real_servers()
     bad = oracle(case, obs)
     if bad:
         return True, {"oracle": bad, "impl": short(obs)}
